@@ -4,7 +4,7 @@
    finite sets the tables mention ([accepted c] = every pattern of set_register) or, where
    stated, over ALL byte strings.  Register files [rf], values [v] and validity sets [s]
    are unrestricted (unbounded). *)
-From RM Require Import C18.Check C18.Proofs Gen.ContextTables.
+From RM Require Import C18.Check C18.Proofs C18.ReadProofs Gen.ContextTables.
 From RM Require C18.Driver.
 Open Scope Z_scope.
 
@@ -402,6 +402,50 @@ Example c18_nonvacuous_format :
   format_register ctx_amd64 (fun _ _ => 18446744073709551615) n_rip =
     Ret [48; 120; 102; 102; 102; 102; 102; 102; 102; 102; 102; 102; 102; 102; 102; 102; 102; 102].
 Proof. repeat split; vm_compute; reflexivity. Qed.
+
+(* "every supported CPU context type": MinidumpContext::read's choice of the context type.  The arms of its architecture
+   match are regenerated from the source ([read_arms]: architecture numbers from format.rs' ProcessorArchitecture, the
+   CONTEXT_* type read, the variant it is wrapped in, the ContextFlagsCpu constant tested, the struct's serialised size
+   computed from format.rs; [read_cpu_mask], [read_cpu_all_bits]: from_flags = from_bits_truncate(flags & CONTEXT_CPU_MASK)).
+   For ALL architecture numbers, buffer lengths and context_flags values:
+   - soundness: a context is produced only as the variant of one of the nine register tables, wrapping the type that
+     table describes, from a buffer that holds the whole struct (every integer field of the table lies inside it), and
+     only when the CPU part of its flags is the constant named like the type;
+   - completeness: each of the nine tables is chosen, for some architecture number, on every buffer that holds the struct
+     and carries the type's CPU constant (flag bits outside the CPU mask do not matter);
+   - one flags value validates at most one arm; an architecture number no arm lists is UnknownCpuContext. *)
+Theorem c18_read_dispatch :
+  (forall arch len flags_of v,
+     read_dispatch read_arms read_cpu_mask read_cpu_all_bits arch len flags_of = RVariant v ->
+     exists c a, In c all_contexts /\ In a read_arms /\ ct_variant c = v /\ ra_variant a = v /\ ra_type a = ct_name c /\
+                 ra_flag_name a = ct_name c /\ In arch (ra_archs a) /\ ra_size a <= len /\
+                 cpu_from_flags read_cpu_mask read_cpu_all_bits (flags_of a) = ra_flag a /\
+                 forallb (field_inside (ra_size a)) (ct_fields c) = true) /\
+  (forall c, In c all_contexts ->
+     exists a arch, In a read_arms /\ In arch (ra_archs a) /\ ra_type a = ct_name c /\ ra_variant a = ct_variant c /\
+       forall len flags_of, ra_size a <= len -> cpu_from_flags read_cpu_mask read_cpu_all_bits (flags_of a) = ra_flag a ->
+         read_dispatch read_arms read_cpu_mask read_cpu_all_bits arch len flags_of = RVariant (ct_variant c)) /\
+  (forall a b f, In a read_arms -> In b read_arms ->
+     cpu_from_flags read_cpu_mask read_cpu_all_bits f = ra_flag a ->
+     cpu_from_flags read_cpu_mask read_cpu_all_bits f = ra_flag b -> a = b) /\
+  (forall arch len flags_of, (forall a, In a read_arms -> ~ In arch (ra_archs a)) ->
+     read_dispatch read_arms read_cpu_mask read_cpu_all_bits arch len flags_of = RUnknownCpu).
+Proof.
+  pose proof read_tables_ok as OK.
+  split; [exact (read_sound _ _ _ _ OK)|]. split; [exact (read_complete _ _ _ _ OK)|].
+  split; [exact (read_flags_exclusive _ _ _ _ OK) | exact (read_unknown read_arms read_cpu_mask read_cpu_all_bits)].
+Qed.
+Print Assumptions c18_read_dispatch.
+(* x86: architecture 0 (INTEL) and 10 (IA32_ON_WIN64) with CONTEXT_X86 | CONTROL | XSTATE bit in a 716-byte buffer -> X86;
+   one byte short, or AMD64's constant -> ReadFailure; architecture 0x8004 (MIPS64, known to from_u16 but without an arm)
+   and 77 -> UnknownCpuContext *)
+Example c18_nonvacuous_read :
+  let rd := read_dispatch read_arms read_cpu_mask read_cpu_all_bits in
+  rd 0 716 (fun _ => 65601) = RVariant [88; 56; 54] /\ rd 10 8192 (fun _ => 65536) = RVariant [88; 56; 54] /\
+  rd 0 715 (fun _ => 65601) = RReadFailure /\ rd 0 716 (fun _ => 1048576) = RReadFailure /\
+  rd 9 1232 (fun _ => 1048576 + 2 ^ 32) = RVariant [65; 109; 100; 54; 52] /\
+  rd 32772 8192 (fun _ => 524288) = RUnknownCpu /\ rd 77 8192 (fun _ => 65536) = RUnknownCpu.
+Proof. cbv zeta. repeat split; vm_compute; reflexivity. Qed.
 
 (* F-C18a: the SPARC table as it was before the fix (same get/set arms, no memoize_register
    and no register_is_valid arms): "o6" is accepted by set_register and read back by
